@@ -145,7 +145,49 @@ func (w *World) fnLoops(fn *ssa.Function) []loopEntry {
 	if len(heads) != len(out) {
 		return nil
 	}
+	// the engine numbers loops by the position of their first instruction, which can differ from the order of the
+	// statements (a loop appending to a variable declared early): no renumbering is attempted then
+	fr := newFrame(fn, nil)
+	fr.analyzeLoops()
+	byOrd := make([]*ssa.BasicBlock, len(out)+1)
+	for h, k := range fr.loopOrd {
+		if k >= 1 && k <= len(out) {
+			byOrd[k] = h
+		}
+	}
+	for k := 1; k <= len(out); k++ {
+		h := byOrd[k]
+		if h == nil {
+			return nil
+		}
+		depth := 0
+		for hh := range fr.loopOrd {
+			if hh != h && fr.loopBlocks(hh)[h] {
+				depth++
+			}
+		}
+		if depth != out[k-1].Depth {
+			return nil
+		}
+		_, isRange := firstRangeOrNext(h)
+		if isRange != (out[k-1].Kind == "range") {
+			return nil
+		}
+	}
 	return out
+}
+
+// firstRangeOrNext: does the header belong to a range loop (hidden index phi, or a map / string iterator)?
+func firstRangeOrNext(h *ssa.BasicBlock) (ssa.Instruction, bool) {
+	for _, in := range h.Instrs {
+		if phi, ok := in.(*ssa.Phi); ok && phi.Comment == "rangeindex" {
+			return in, true
+		}
+		if _, ok := in.(*ssa.Next); ok {
+			return in, true
+		}
+	}
+	return nil, false
 }
 
 // alignLoops maps recorded loop ordinals to current ones (1-based). Loops with identical signatures anchor the alignment;
@@ -385,6 +427,8 @@ func (ct *Contract) rename(inner, outer map[string]string, ss *SpecSet) bool {
 		base, suf := s, ""
 		if strings.HasSuffix(s, "@pre") {
 			base, suf = strings.TrimSuffix(s, "@pre"), "@pre"
+		} else if strings.HasSuffix(s, "@in") {
+			base, suf = strings.TrimSuffix(s, "@in"), "@in"
 		}
 		if bound[base] {
 			return s
